@@ -11,13 +11,13 @@ import subprocess
 
 from bvmon import harness
 
-STATUSES = ["clean", " M", "M ", "MM", "A ", "AM", " D", "D ", "R ", "R>", "??"]
+STATUSES = ["clean", " M", "M ", "MM", "A ", "AM", " D", "D ", "R ", "R>", "RM", "RM>", "RD>", "??"]
 ROLES = ["pattern", "unrelated"]
 
 SPEC = dict(
     level="exploration",
     rule=("EXHAUSTIVE product of the statuses real git reports {clean, ' M', 'M ', 'MM', 'A ', 'AM', ' D', 'D ', "
-          "'R ' (renamed away), 'R ' (renamed onto the name), '??'} x {file with a version pattern, unrelated file} x "
+          "'R ' (renamed away), 'R ' (renamed onto the name), 'RM' (both directions), 'RD', '??'} x {file with a version pattern, unrelated file} x "
           "--allow-dirty on/off (44 cases) + all pairs (pattern-file status, unrelated-file status), repeated over "
           "layouts (file in a sub-directory, different patterns): 1x quick, 40x thorough; non-trivial+distinct = "
           "distinct (status, role, allow-dirty, expected outcome, layout) tuples"),
@@ -100,6 +100,9 @@ def make_status(d, rel, status, content):
         git(d, "rm", "-q", rel)
     elif status == "R ":
         git(d, "mv", rel, moved)
+    elif status == "RM":
+        git(d, "mv", rel, moved)
+        write(d, moved, content + "local edit after the rename\n")
     # 'A ', 'AM', '??', 'R>' are prepared before the initial commit (see run_case)
 
 
@@ -121,7 +124,7 @@ def run_case(ctx, case):
         for rel, st, content in ((pfile, ps, pcontent), (ufile, us, ucontent)):
             if st in ("A ", "AM", "??"):
                 late[rel] = (st, content)
-            elif st == "R>":
+            elif st in ("R>", "RM>", "RD>"):
                 write(d, rel + ".orig", content)   # committed under another name, renamed onto `rel` later
                 late[rel] = (st, content)
             else:
@@ -129,8 +132,12 @@ def run_case(ctx, case):
         git(d, "add", "-A")
         git(d, "commit", "-q", "-m", "init")
         for rel, (st, content) in late.items():
-            if st == "R>":
+            if st in ("R>", "RM>", "RD>"):
                 git(d, "mv", rel + ".orig", rel)
+                if st == "RM>":
+                    write(d, rel, content + "local edit after the rename\n")
+                elif st == "RD>":
+                    os.unlink(os.path.join(d, rel))
             else:
                 write(d, rel, content)
                 if st in ("A ", "AM"):
@@ -144,7 +151,7 @@ def run_case(ctx, case):
         for rel, st in ((pfile, ps), (ufile, us)):
             if st == "clean":
                 continue
-            code = "R " if st == "R>" else st
+            code = {"R>": "R ", "RM>": "RM", "RD>": "RD"}.get(st, st)
             hit = [ln for ln in porcelain.splitlines() if ln[:2] == code and rel in ln]
             if not hit:
                 raise harness.Skip(f"scenario-not-reproduced:{st}")
@@ -174,7 +181,7 @@ def run_case(ctx, case):
             changed = harness.diff_snapshots(before, after)
             if res.exit_code == 0 or changed or n_after != n_before:
                 cls = "other:dirty_tree_not_respected"
-                if p_dirty and allow and (ps[0] == " " or ps in ("MM", "AM", "R>")):
+                if p_dirty and allow and (ps[0] == " " or ps in ("MM", "AM", "R>", "RM>", "RD>", "RM")):
                     cls = "porcelain_status_column_misparsed"
                 ctx.violation(cls, f"pattern file status {ps!r}, unrelated {us!r}, allow-dirty={allow}: expected abort "
                               f"before any change, got exit {res.exit_code}, changed files {changed}, commits "
